@@ -22,7 +22,7 @@ import (
 )
 
 type Op struct {
-	Op  string `json:"op"` // put read mutate poke delete evict evicthold release writeback flush
+	Op  string `json:"op"` // put read faultread mutate poke delete evict evicthold release writeback flush
 	Key int    `json:"key,omitempty"`
 	Val int    `json:"val,omitempty"`
 	Num int    `json:"num,omitempty"` // evict fraction = num/den, den in {1,2,4}
@@ -77,6 +77,8 @@ func openDB() {
 type rig struct {
 	c      *cache.Cache
 	prefix string
+
+	faultArmed, faultFired bool // the next FromBytes call fails once (a transient decode fault)
 
 	mu      sync.Mutex
 	saves   [][2]int // (key index, value) in serialization order
@@ -169,6 +171,10 @@ func (r *rig) newCache() {
 		return encodeVal(o.Val), nil
 	}
 	c.FromBytes = func(k string, b []byte) (interface{}, error) {
+		if r.faultArmed {
+			r.faultArmed, r.faultFired = false, true
+			return nil, fmt.Errorf("transient decode fault")
+		}
 		n, err := decodeVal(b)
 		if err != nil {
 			return nil, err
@@ -359,6 +365,21 @@ func run(in Input) (res lib.Result) {
 			p := get(k)
 			handles[k] = p
 			emit(fmt.Sprintf("HRead %d %d", k, p.Val))
+		case "faultread":
+			// a Get during which the decoder fails once: the cache must hand the error on (and leave the record alone)
+			r.faultArmed, r.faultFired = true, false
+			v, err := r.c.Get(keyName(k))
+			r.faultArmed = false
+			if err != nil {
+				if !r.faultFired {
+					panic(err)
+				}
+				emit(fmt.Sprintf("HReadErr %d", k))
+			} else {
+				p := v.(*obj)
+				handles[k] = p
+				emit(fmt.Sprintf("HRead %d %d", k, p.Val))
+			}
 		case "mutate":
 			if held == k {
 				overlaps++
@@ -372,6 +393,10 @@ func run(in Input) (res lib.Result) {
 			if err := r.c.Delete(keyName(k)); err != nil {
 				panic(err)
 			}
+			// the client lets go of the pointer of an object it has deleted (a later poke of this key does nothing
+			// until the key is put or read again); the model treats in-flight entries of a key as aliases of the
+			// client's pointer, which would be wrong for a pointer obtained between a held save and this Delete
+			delete(handles, k)
 			emit(fmt.Sprintf("HDelete %d", k))
 		case "evict", "evicthold":
 			releaseHeld()
@@ -472,7 +497,7 @@ func run(in Input) (res lib.Result) {
 	res.Coq = "{| c_keys := " + lib.List(keys) + "; c_hist := " + lib.List(hist) + " |}"
 	res.NonTrivial = nontrivial(in)
 	feat := map[string]interface{}{"family": keyFamily, "stream": in.Stream, "len": len(in.Ops), "keys": nkeys, "forced_overlaps": overlaps}
-	for _, kname := range []string{"put", "read", "mutate", "poke", "delete", "evict", "evicthold", "writeback", "flush"} {
+	for _, kname := range []string{"put", "read", "faultread", "mutate", "poke", "delete", "evict", "evicthold", "writeback", "flush"} {
 		feat["n_"+kname] = counts[kname]
 	}
 	res.Feat = feat
@@ -598,7 +623,11 @@ func gen(r *rand.Rand, idx int, tier string) Input {
 		if lib.Chance(r, 0.15) {
 			val = 0 // the object whose serialized form is empty
 		}
+		dfl := lib.Chance(r, 0.12) // store / mutate back to exactly what New(key) would be
 		k := r.Intn(in.Keys)
+		if dfl {
+			val = 1000 + k
+		}
 		x := r.Intn(100)
 		switch {
 		case holding > 0:
@@ -623,8 +652,10 @@ func gen(r *rand.Rand, idx int, tier string) Input {
 			}
 		case x < 22:
 			in.Ops = append(in.Ops, Op{Op: "put", Key: k, Val: val})
-		case x < 42:
+		case x < 38:
 			in.Ops = append(in.Ops, Op{Op: "read", Key: k})
+		case x < 42:
+			in.Ops = append(in.Ops, Op{Op: "faultread", Key: k})
 		case x < 50:
 			in.Ops = append(in.Ops, Op{Op: "mutate", Key: k, Val: val})
 		case x < 55:
@@ -659,9 +690,12 @@ func gen(r *rand.Rand, idx int, tier string) Input {
 // the first keyed operation uses key 0 (the two keys are interchangeable).
 // values of the enumerated histories: distinct per position, except that the first operation uses the value 0,
 // whose serialized form is empty
-func enumVal(i int) int {
-	if i == 0 {
+func enumVal(i int, key int) int {
+	switch i {
+	case 0:
 		return 0
+	case 2:
+		return 1000 + key // exactly what New(key) would be
 	}
 	return 10 + i
 }
@@ -696,7 +730,7 @@ func enum(tier string) []Input {
 			if interesting || len(prefix) <= 3 {
 				in := Input{Stream: "enum", Keys: 2, Family: 2}
 				for i, s := range prefix {
-					in.Ops = append(in.Ops, Op{Op: s.op, Key: s.key, Val: enumVal(i), Num: s.num, Den: s.den})
+					in.Ops = append(in.Ops, Op{Op: s.op, Key: s.key, Val: enumVal(i, s.key), Num: s.num, Den: s.den})
 				}
 				out = append(out, in)
 			}
@@ -728,7 +762,7 @@ func enum(tier string) []Input {
 		if hasWB {
 			in := Input{Stream: "enum-writeback", Keys: 2, Family: 2}
 			for i, s := range prefix {
-				in.Ops = append(in.Ops, Op{Op: s.op, Key: s.key, Val: enumVal(i), Num: s.num, Den: s.den})
+				in.Ops = append(in.Ops, Op{Op: s.op, Key: s.key, Val: enumVal(i, s.key), Num: s.num, Den: s.den})
 			}
 			out = append(out, in)
 		}
